@@ -117,6 +117,7 @@ func VerifyFuncX(P *Program, DB *ContractDB, fc *FuncContract, safety bool, excu
 		}
 		cond = and(cond, g)
 	}
+	f.lets = lets
 	pre := B.define("pre", "Bool", cond)
 	// vacuity guard: precondition must be satisfiable
 	vo := f.addObl("vacuity", "requires-sat", pre, "false", nil, fn.Pos(), fc.Props)
